@@ -96,7 +96,13 @@ def enc_case(rng, m, default, wf_intended):
             # text not encodable under the chosen alphabet is outside the domain
             too_long = (hasattr(m, 'short_message') and m.short_message and not m.auto_message_payload
                         and out == 'exc ValueError')
-            if not out.startswith('exc Unicode') and not too_long:
+            text = (getattr(m, 'short_message', '') or getattr(m, 'message_payload', '') or '')
+            auto_ok = (hasattr(m, 'short_message') and m.encoding is None and not getattr(m, '_preencoded', False)
+                       and not any(0xD800 <= ord(ch) <= 0xDFFF for ch in text))
+            if out.startswith('exc Unicode') and auto_ok and not too_long:
+                # automatic encoding falls back to UCS2, which can carry every text without lone surrogates
+                fail = 'pdu() of a text under automatic encoding raised (%s) instead of falling back to UCS2' % out
+            elif not out.startswith('exc Unicode') and not too_long:
                 fail = 'pdu() of an allowed value raised (%s)' % out
         else:
             if struct.unpack('!I', pdu[:4])[0] != len(pdu):
@@ -229,6 +235,9 @@ def generate(rng, tier):
             m = L.rand_sm(rng, rng.choice(('SubmitSm', 'SubmitSm', 'DeliverSm')))
         c, pdu = enc_case(rng, m, default, True)
         yield c
+        if pdu is not None and i % 2 == 0:
+            from corr.c04 import again_case
+            yield again_case(m, default, c.inp['msg'], pdu, c.line.startswith('# opaque'))
         if pdu is not None:
             yield dec_case(pdu, default, 'own')
             if i % 7 == 0:
@@ -270,7 +279,7 @@ def generate(rng, tier):
 def replay(inp):
     if inp['op'] == 'dec':
         return dec_case(bytes.fromhex(inp['hex']), inp['default'], 'replay')
-    return Case('pdu.enc %s %s' % (L.enc_triple(inp['default']), inp['msg']), '', None, None, inp)
+    return Case('pdu.%s %s %s' % (inp['op'], L.enc_triple(inp['default']), inp['msg']), '', None, None, inp)
 
 
 def classify(case):
